@@ -58,7 +58,7 @@ Theorem step_frame : forall w o d,
 Proof.
   intros w o d L N.
   destruct o as [ |c p u|c u|c x|t x|c k i attrs|c f i args other|[c i] attrs|[c i] s e|[c i] v
-                 |c r|c o|t src x order|t|t|c|c x|c cls|a b|a b|t|jt|t| ];
+                 |c r|c o|t src x order|t|t|c|c x|c cls|a b|a b|t|jt|t|t|t| ];
     cbn [step target cref_doc] in *; unfold with_cont; cbn [fst snd wdocs].
   all: frame_step.
 Qed.
@@ -90,7 +90,7 @@ Theorem step_length : forall w o, length (wdocs w) <= length (wdocs (fst (step w
 Proof.
   intros w o.
   destruct o as [ |c p u|c u|c x|t x|c k i attrs|c f i args other|[c i] attrs|[c i] s e|[c i] v
-                 |c r|c o|t src x order|t|t|c|c x|c cls|a b|a b|t|jt|t| ];
+                 |c r|c o|t src x order|t|t|c|c x|c cls|a b|a b|t|jt|t|t|t| ];
     cbn [step]; unfold with_cont; cbn [fst snd wdocs].
   all: length_step.
 Qed.
@@ -130,6 +130,8 @@ with coh_d :=
     | eapply doc_new_bundle_coh; [ | eassumption ]; coh_d
     | eapply merge_bundles_coh; [ | eassumption ]; coh_d
     | eapply unify_bundles_coh; [ | eassumption ]; coh_d
+    | eapply doc_unified_coh; eassumption
+    | eapply (fun ft g nd H => proj1 (graph_to_prov_coh ft g nd H)); eassumption
     | apply DCoh_attach; [ coh_d | coh_b ]
     | eapply (fun ft t nd H => proj1 (decode_doc_inv ft t nd H)); eassumption
     | eapply WCoh_get_doc; [ | eassumption ]; coh_w ].
@@ -145,7 +147,7 @@ Theorem step_coherent : forall w o, WCoh w -> WCoh (fst (step w o)).
 Proof.
   intros w o W.
   destruct o as [ |c p u|c u|c x|t x|c k i attrs|c f i args other|[c i] attrs|[c i] s e|[c i] v
-                 |c r|c o|t src x order|t|t|c|c x|c cls|a b|a b|t|jt|t| ];
+                 |c r|c o|t src x order|t|t|c|c x|c cls|a b|a b|t|jt|t|t|t| ];
     cbn [step]; unfold with_cont; cbn [fst snd].
   all: coh_step.
 Qed.
@@ -334,6 +336,15 @@ Proof.
     eapply IH; [|exact H]. eapply attach_bundle_uniq; eauto.
 Qed.
 
+Lemma doc_unified_uniq : forall ft dd nd, doc_unified ft dd = OK nd -> uniq (dbundles nd).
+Proof.
+  intros ft dd nd H. unfold doc_unified in H.
+  destruct (add_namespaces nsm_init _) as [m0|]; [|discriminate].
+  destruct (unified_records ft (dmain dd)) as [urecs|e|]; try discriminate.
+  destruct (add_records None ft _ urecs) as [nmain [y|e|]] eqn:EA; try discriminate.
+  eapply unify_bundles_uniq; [|exact H]. constructor.
+Qed.
+
 Lemma WUniq_get_doc : forall w d dd, WUniq w -> get_doc w d = Some dd -> uniq (dbundles dd).
 Proof.
   intros w d dd W G. unfold WUniq in W. rewrite Forall_forall in W.
@@ -362,6 +373,9 @@ Ltac uq_d :=
     | eapply doc_new_bundle_uniq; [ | eassumption ]; uq_d
     | eapply merge_bundles_uniq; [ | eassumption ]; uq_d
     | eapply unify_bundles_uniq; [ | eassumption ]; uq_d
+    | eapply doc_unified_uniq; eassumption
+    | match goal with H : graph_to_prov _ _ = OK ?nd |- uniq (dbundles ?nd) =>
+        rewrite (proj2 (graph_to_prov_coh _ _ _ H)); apply uniq_nil end
     | cbn [dbundles]; apply uniq_snoc; [ uq_d | assumption ]
     | eapply (fun ft t nd H => proj2 (decode_doc_inv ft t nd H)); eassumption
     | eapply WUniq_get_doc; [ | eassumption ]; uq_w ]
@@ -377,7 +391,7 @@ Theorem step_uniq : forall w o, WUniq w -> WUniq (fst (step w o)).
 Proof.
   intros w o W.
   destruct o as [ |c p u|c u|c x|t x|c k i attrs|c f i args other|[c i] attrs|[c i] s e|[c i] v
-                 |c r|c o|t src x order|t|t|c|c x|c cls|a b|a b|t|jt|t| ];
+                 |c r|c o|t src x order|t|t|c|c x|c cls|a b|a b|t|jt|t|t|t| ];
     cbn [step]; unfold with_cont; cbn [fst snd].
   all: repeat (match goal with
           | |- context [match ?x with _ => _ end] => destruct x eqn:?
